@@ -287,7 +287,30 @@ var c13Contexts = []string{
 	"JSIGHT 0.3\r\nGET /a // note\r\n\t",
 }
 
-func init() { vlib.Register(c13BFS, c13Core, c13Random) }
+// c13AfterText: every keyword must also be recognised when it follows a free-text Description body (the text ends where a
+// line starts with a directive); a keyword swallowed by the text is a keyword that is not reachable there.
+var c13AfterText = &vlib.Check{
+	Prop: "C13", Name: "after-description",
+	Oracle: func(c *vlib.Case) *vlib.Violation {
+		ctx, _ := c.Params["ctx"].(string)
+		word := string(c.Project.RootBytes())
+		kw := strings.TrimRight(strings.SplitN(word, " ", 2)[0], "\r\n")
+		r := kwScanWord(ctx, word)
+		if r.panicked != "" {
+			return vlib.V("c13:scanner-panic", "ctx=%q word=%q panic=%s", ctx, word, r.panicked)
+		}
+		if r.kwBegin != len(ctx) || r.kwEnd != len(ctx)+len(kw)-1 {
+			return vlib.V("c13:keyword-not-recognised-after-description", "after a Description text the line %q does not start the directive %s (first keyword lexeme after the text: [%d,%d], error %d %q)", word, kw, r.kwBegin, r.kwEnd, r.errIdx, r.errMsg)
+		}
+		return nil
+	},
+	Classify: func(c *vlib.Case) (bool, []string) { return true, []string{"keyword-after-text"} },
+	SampleOf: func(c *vlib.Case) any {
+		return map[string]any{"ctx": c.Params["ctx"], "word": string(c.Project.RootBytes())}
+	},
+}
+
+func init() { vlib.Register(c13BFS, c13Core, c13Random, c13AfterText) }
 
 func TestC13(t *testing.T) {
 	ev := vlib.Ev("C13")
@@ -391,6 +414,31 @@ func TestC13(t *testing.T) {
 				w := words[i]
 				i++
 				return &vlib.Case{Project: vlib.SingleFile([]byte("JSIGHT 0.3\n" + w + "\n")), Params: map[string]any{"word": w}}
+			})
+		})
+	}
+	if vlib.Shard() == 0 {
+		t.Run("after-description", func(t *testing.T) {
+			var words []string
+			for _, k := range kwRef {
+				words = append(words, k)
+			}
+			for c := 100; c < 600; c++ {
+				words = append(words, fmt.Sprint(c))
+			}
+			ctxs := []string{"JSIGHT 0.3\nGET /a\n  Description\n    some text\n  ", "JSIGHT 0.3\nINFO\n  Description\n    line one\n\n    line two\n", "JSIGHT 0.3\r\nGET /a\r\n\tDescription\r\n\t\ttext\r\n\t"}
+			terms := []string{"", " x", "\n", " // a\n"}
+			i := 0
+			total := len(words) * len(ctxs) * len(terms)
+			c13AfterText.RunEnum(t, func() *vlib.Case {
+				if i >= total {
+					return nil
+				}
+				w := words[i%len(words)]
+				ctx := ctxs[(i/len(words))%len(ctxs)]
+				term := terms[i/(len(words)*len(ctxs))]
+				i++
+				return &vlib.Case{Project: vlib.SingleFile([]byte(w + term)), Params: map[string]any{"ctx": ctx}}
 			})
 		})
 	}
